@@ -108,11 +108,11 @@ impl Options {
             ]),
             Options::FormatList => icu_datagen::keys(&["list/and@1", "list/or@1", "list/unit@1"]),
             Options::FormatNums => icu_datagen::keys(&["decimal/symbols@1"]),
-            Options::FormatCurrency => icu_datagen::keys(&[
-                "decimal/digits@1",
-                "decimal/symbols@2",
-                "currency/essentials@1",
-            ]),
+            // the `CurrencyFormatter` builds a `FixedDecimalFormatter`: it needs the decimal symbols too
+            // (names unknown to the data generator are dropped silently).
+            Options::FormatCurrency => {
+                icu_datagen::keys(&["decimal/symbols@1", "currency/essentials@1"])
+            }
         }
     }
 }
